@@ -4,6 +4,8 @@ Every check must still exit 0: a VIOLATION or an analysis-broken exit on a benig
 import json, os, subprocess, sys
 VERIF = "/verif"
 claimed = [c["property_id"] for c in json.load(open(os.path.join(VERIF, "MANIFEST.json")))["checks"]]
+if os.environ.get("VERIF_ONLY_CHECKS"):
+    claimed = [c for c in claimed if c in os.environ["VERIF_ONLY_CHECKS"].split(",")]      # re-run after a change to one rule file
 REPO = "/repo"
 if len(sys.argv) > 2 and sys.argv[1] == "--repo":
     REPO = sys.argv[2]
